@@ -253,7 +253,7 @@ EXTRA = {
     'C12': 'Also: transformation calls selected by a coordinate-system constant belong to one system per constant at every site (R12.6).',
     'C19': 'Also: the one capacity counter the serialiser lowers is lowered to a size the owner\'s growth test itself asks for (R19.4). The owner of a capacity the serialiser trims tests it with capacity < need only, the one test whose outcome is the same before and after trimming (R19.4). A descriptor handed to fdopen is closed once, through its stream: no close() of a descriptor whose stream was fclose()d (R19.6). A file-scope object assigned different values at different sites counts as shared state (R19.1); switches over r->status handle the statuses a client can set (R01.1).',
     'C20': 'Also: in reb_simulation_move_to_com the totals come from completed loops over the right member and the per-particle summands of the first- and second-order shifts equal '
-           'the first and mixed second derivative of sum m x / sum m (R20.7); units_convert_particle converts every dimensional field, also when written as a setattr loop. No parameter of the scaling/rotation wrappers is ignored or overwritten before it is read (R20.8); the inline conversions of the Python front end carry G exactly as the C ones do (R11.4, R11.8); every quaternion returned by reb_rotation_init_from_to is built from normalised vectors (unit typestate, R20.9); reb_rotation_to_orbital returns angles whose sum / difference reproduce the two arctangents that determine the rotation in each of its three branches, given the half-angle form of reb_rotation_init_orbit derived symbolically (R20.10). The effect sets of reb_simulation_imul/iadd/isub on a particle are exactly positions and velocities (R20.11); the vector constructors copy their arguments (R20.12).',
+           'the first and mixed second derivative of sum m x / sum m (R20.7); units_convert_particle converts every dimensional field, also when written as a setattr loop. No parameter of the scaling/rotation wrappers is ignored or overwritten before it is read (R20.8); the inline conversions of the Python front end carry G exactly as the C ones do (R11.4, R11.8); every quaternion returned by reb_rotation_init_from_to is built from normalised vectors (unit typestate, R20.9); reb_rotation_to_orbital returns angles whose sum / difference reproduce the two arctangents that determine the rotation in each of its three branches, given the half-angle form of reb_rotation_init_orbit derived symbolically (R20.10). The effect sets of reb_simulation_imul/iadd/isub on a particle are exactly positions and velocities (R20.11); the vector constructors copy their arguments (R20.12). reb_rotation_init_to_new_axes projects on the normalised new z axis and is the product of from_to(newz, z) and a rotation about z (R20.13).',
 }
 for _k, _t in EXTRA.items():
     CLAIMS[_k]['decided'] = CLAIMS[_k]['decided'].rstrip() + ' ' + _t
